@@ -610,11 +610,23 @@ func (p *Program) pfOneErrMayBeNil(fs []Fact, v ssa.Value) bool {
 }
 
 // pfNonEmptySliceLit: v is a slice expression over a fixed-size array with at least one element
-// (composite literal `[]T{a, ...}` or the variadic tail of append).
+// (composite literal `[]T{a, ...}` or the variadic tail of append), or a `make` of constant length >= 1.
 func pfNonEmptySliceLit(v ssa.Value) bool {
+	// make([]T, n) with a constant n >= 1 (elements are filled in afterwards): as long as a
+	// composite literal of the same length
+	if mk, isMk := stripConv(v).(*ssa.MakeSlice); isMk {
+		n, isC := constInt(mk.Len)
+		return isC && n >= 1
+	}
 	sl, ok := stripConv(v).(*ssa.Slice)
-	if !ok || sl.Low != nil || sl.High != nil {
+	if !ok || sl.Low != nil {
 		return false
+	}
+	// go/ssa writes make([]T, n) with a constant n as `new [n]T` sliced with [:n]
+	if sl.High != nil {
+		if n, isC := constInt(sl.High); !isC || n < 1 {
+			return false
+		}
 	}
 	a, ok := sl.X.(*ssa.Alloc)
 	if !ok {
